@@ -90,6 +90,21 @@ func drawList(t *rapid.T, name string, actual [][]byte, s *gen.Stream, maxLen in
 		return [][]byte{}
 	}
 	out := make([][]byte, n)
+	if exactLen == 0 && n >= 8 {
+		// a long list of well-formed other values, the value itself at one position in half of the cases, and
+		// occasionally one entry of any kind
+		for i := range out {
+			out[i] = s.Bytes(len(actual[0]))
+		}
+		if rapid.Bool().Draw(t, name+"-containsValue") {
+			out[rapid.IntRange(0, n-1).Draw(t, name+"-valueAt")] = append([]byte{}, actual[0]...)
+		}
+		if rapid.IntRange(0, 3).Draw(t, name+"-oneOdd") == 0 {
+			i := rapid.IntRange(0, n-1).Draw(t, name+"-oddAt")
+			out[i] = drawField(t, fmt.Sprintf("%s[%d]", name, i), actual[0], s)
+		}
+		return out
+	}
 	for i := range out {
 		a := actual[i%len(actual)]
 		out[i] = drawField(t, fmt.Sprintf("%s[%d]", name, i), a, s)
@@ -561,6 +576,90 @@ func TestC08(t *testing.T) {
 		gen.Class(fmt.Sprintf("single:%d", which))
 		if key, oracle, detail := c08Oracle(q, p, false); key != "" {
 			gen.Fail(t, gen.Violation{Key: key, Oracle: oracle, Detail: detail,
+				Replay: map[string]any{"kind": "validate", "raw_hex": hex.EncodeToString(q.Encode()), "options": fieldsJSON(p), "raw": false}})
+		}
+	})
+	// Exactly two expectations configured, each one met or missed on its own (at least one missed): one check's success
+	// must never cover for the other's failure. Every pair of the fourteen expectations.
+	gen.Prop(t, "two-expectations", gen.N(20000, 1500000), func(t *rapid.T) {
+		s := gen.NewStream(rapid.Uint64().Draw(t, "content"), "c08t")
+		q := drawPolicyQuote(t, s)
+		binary.LittleEndian.PutUint64(q.Xfam[:], gen.XfamFixed1|(s.Uint64()&gen.XfamFixed0))
+		binary.LittleEndian.PutUint64(q.TdAttr[:], s.Uint64()&gen.TdAttrAllowed)
+		// SVNs with room on both sides
+		binary.LittleEndian.PutUint16(q.Word10[:], uint16(1+s.Intn(65000)))
+		binary.LittleEndian.PutUint16(q.Word8[:], uint16(1+s.Intn(65000)))
+		p := &gen.PolicyFields{}
+		a := rapid.IntRange(0, 13).Draw(t, "first")
+		b := rapid.IntRange(0, 12).Draw(t, "second")
+		if b >= a {
+			b++
+		}
+		meet := rapid.SampledFrom([][2]bool{{true, false}, {false, true}, {false, false}, {true, true}}).Draw(t, "met")
+		set := func(which int, met bool) {
+			val := func(actual []byte) []byte {
+				v := append([]byte{}, actual...)
+				if !met {
+					v[s.Intn(len(v))] ^= byte(1 + s.Intn(255))
+				}
+				return v
+			}
+			switch which {
+			case 0:
+				p.QeVendorID = val(q.VendorID[:])
+			case 1:
+				p.MrSeam = val(q.MrSeam[:])
+			case 2:
+				p.TdAttributes = val(q.TdAttr[:])
+			case 3:
+				p.Xfam = val(q.Xfam[:])
+			case 4:
+				p.MrTd = val(q.MrTd[:])
+			case 5:
+				p.MrConfigID = val(q.MrConfigID[:])
+			case 6:
+				p.MrOwner = val(q.MrOwner[:])
+			case 7:
+				p.MrOwnerConfig = val(q.MrOwnerConfig[:])
+			case 8:
+				p.ReportData = val(q.ReportData[:])
+			case 9:
+				p.Rtmrs = make([][]byte, 4)
+				p.Rtmrs[s.Intn(4)] = nil
+				i := s.Intn(4)
+				p.Rtmrs[i] = val(q.Rtmr[i][:])
+			case 10:
+				p.AnyMrTd = [][]byte{s.Bytes(48), val(q.MrTd[:]), s.Bytes(48)}[:1+s.Intn(3)]
+				if len(p.AnyMrTd) == 1 {
+					p.AnyMrTd[0] = val(q.MrTd[:])
+				}
+			case 11:
+				m := append([]byte{}, q.TeeTcbSvn[:]...)
+				if !met {
+					i := s.Intn(16)
+					if m[i] == 255 {
+						q.TeeTcbSvn[i] = 254
+					}
+					m[i] = q.TeeTcbSvn[i] + 1
+				}
+				p.MinTeeTcbSvn = m
+			case 12:
+				p.MinQeSvn = uint32(binary.LittleEndian.Uint16(q.Word10[:]))
+				if !met {
+					p.MinQeSvn++
+				}
+			case 13:
+				p.MinPceSvn = uint32(binary.LittleEndian.Uint16(q.Word8[:]))
+				if !met {
+					p.MinPceSvn++
+				}
+			}
+		}
+		set(a, meet[0])
+		set(b, meet[1])
+		gen.Class(fmt.Sprintf("two:%d+%d", min(a, b), max(a, b)))
+		if key, oracle, detail := c08Oracle(q, p, rapid.Bool().Draw(t, "raw")); key != "" {
+			gen.Fail(t, gen.Violation{Key: key, Oracle: oracle, Detail: fmt.Sprintf("two expectations (%d met=%v, %d met=%v): %s", a, meet[0], b, meet[1], detail),
 				Replay: map[string]any{"kind": "validate", "raw_hex": hex.EncodeToString(q.Encode()), "options": fieldsJSON(p), "raw": false}})
 		}
 	})
